@@ -11,33 +11,24 @@ real `ThreadPool` is checked against in C20) satisfies `PoolSpec` — by
 the real pool can produce, not merely for an assumed pool.
 -/
 namespace Gold.C01
-open Gold.Pool
+open Gold.Srv Gold.Doc
 
 /-- `pool` behaves like M-POOL: for every job list there is a pool size, and a reachable state
     in which `drop` has returned, whose submitted ids are the positions of the jobs and whose
     finished ids, read as positions, give `pool js`. -/
 def PoolRealised (pool : List Job → List Job) : Prop :=
-  ∀ js : List Job, ∃ (n : Nat) (s : St), 0 < n ∧ Reachable n s ∧ s.main = .done ∧
+  ∀ js : List Job, ∃ (n : Nat) (s : Gold.Pool.St), 0 < n ∧ Gold.Pool.Reachable n s ∧ s.main = Gold.Pool.MPc.done ∧
     s.submitted.Perm (List.range js.length) ∧ pool js = s.finished.filterMap (fun i => js[i]?)
 
 theorem range_filterMap_getElem? {α} (l : List α) : (List.range l.length).filterMap (fun i => l[i]?) = l := by
-  apply List.ext_getElem?
-  intro i
-  induction l using List.reverseRecOn generalizing i with
-  | nil => simp
-  | append_singleton xs x ih =>
-    simp only [List.length_append, List.length_singleton, List.range_succ, List.filterMap_append]
-    have h1 : (List.range xs.length).filterMap (fun i => (xs ++ [x])[i]?) = xs := by
-      have : (List.range xs.length).filterMap (fun i => (xs ++ [x])[i]?) = (List.range xs.length).filterMap (fun i => xs[i]?) := by
-        apply List.filterMap_congr
-        intro j hj
-        simp only [List.mem_range] at hj
-        simp [List.getElem?_append_left hj]
-      rw [this]
-      apply List.ext_getElem?
-      intro j; exact ih j
-    rw [h1]
-    simp
+  induction l with
+  | nil => rfl
+  | cons x xs ih =>
+    rw [List.length_cons, List.range_succ_eq_map, List.filterMap_cons]
+    simp only [List.getElem?_cons_zero, List.filterMap_map]
+    have : ((fun i => (x :: xs)[i]?) ∘ Nat.succ) = (fun i => xs[i]?) := by
+      funext i; simp
+    rw [this, ih]
 
 /-- **every pool realised by M-POOL satisfies the specification C01 assumes** -/
 theorem poolSpec_of_realised (pool : List Job → List Job) (h : PoolRealised pool) : PoolSpec pool := by
@@ -51,9 +42,12 @@ theorem poolSpec_of_realised (pool : List Job → List Job) (h : PoolRealised po
   exact h3
 
 /-- **C01 for the real pool protocol**: every request is answered exactly once and the server
-    stays alive, for every pool that is a run of M-POOL -/
-theorem serve_exactly_once_pool (an : Gold.Srv.Analysis) (norm : String → String) (fs : Gold.Doc.FS) (root : Gold.Doc.Root)
-    (pool : List Job → List Job) (hp : PoolRealised pool) (s₀ : Gold.Doc.Store) (ms : List Gold.Srv.Msg) :=
-  (serve_exactly_once an norm fs root) pool (poolSpec_of_realised pool hp) s₀ ms
+    stays alive, for every pool that is a run of M-POOL (all three clauses of `ExactlyOnce`) -/
+theorem serve_exactly_once_pool (an : Analysis) (norm : String → String) (fs : FS) (root : Root)
+    (pool : List Job → List Job) (hp : PoolRealised pool) (s₀ : Store) (ms : List Msg) :
+    (∀ i, ((serve pool ⟨Cfg.current, Dispatch.current, an, norm, fs, root⟩ s₀ ms).responses.map (·.1)).count i = (received ms).count i) ∧
+    ((serve pool ⟨Cfg.current, Dispatch.current, an, norm, fs, root⟩ s₀ ms).alive = true ∨ ToldToStop ms) :=
+  let h := (serve_exactly_once an norm fs root) pool (poolSpec_of_realised pool hp) s₀ ms
+  ⟨h.1, h.2.1⟩
 
 end Gold.C01
